@@ -881,18 +881,27 @@ def a7(repo: Repo) -> RuleResult:
                 if not (isinstance(n, ast.Assign) and len(n.targets) == 1 and isinstance(n.targets[0], ast.Subscript)):
                     continue
                 key = n.targets[0].slice
+                ktxt = src_of(key)
+                # a local bound once to the key expression
+                if isinstance(key, ast.Name):
+                    kb = [a_ for a_ in ast.walk(fi.node) if isinstance(a_, ast.Assign) and len(a_.targets) == 1 and isinstance(a_.targets[0], ast.Name) and a_.targets[0].id == key.id]
+                    if len(kb) == 1:
+                        key = kb[0].value
+                # the key says less than the object: its simple name, its repr / str (which print the simple name)
                 named = [x for x in ast.walk(key) if isinstance(x, ast.Attribute) and x.attr == "name" and isinstance(x.value, ast.Name) and x.value.id in params]
+                named += [x.args[0] for x in ast.walk(key) if isinstance(x, ast.Call) and isinstance(x.func, ast.Name) and x.func.id in ("repr", "str", "format") and len(x.args) == 1 and isinstance(x.args[0], ast.Name) and x.args[0].id in params]
+                named += [x.value for x in ast.walk(key) if isinstance(x, ast.FormattedValue) and isinstance(x.value, ast.Name) and x.value.id in params]
                 if not named:
                     continue
+                named = [ast.Attribute(value=x, attr="name") if isinstance(x, ast.Name) else x for x in named]
                 n_named += 1
                 cont = src_of(n.targets[0].value)
-                ktxt = src_of(key)
                 # a memo: the same container is asked for the same key in this function
                 reads = [x for x in ast.walk(fi.node) if (isinstance(x, ast.Compare) and len(x.ops) == 1 and isinstance(x.ops[0], (ast.In, ast.NotIn)) and src_of(x.left) == ktxt and src_of(x.comparators[0]) == cont) or (isinstance(x, ast.Subscript) and x is not n.targets[0] and src_of(x.value) == cont and src_of(x.slice) == ktxt and isinstance(x.ctx, ast.Load)) or (isinstance(x, ast.Call) and isinstance(x.func, ast.Attribute) and x.func.attr == "get" and src_of(x.func.value) == cont and x.args and src_of(x.args[0]) == ktxt)]
                 subj = named[0].value.id
                 from_subject = any(isinstance(x, ast.Name) and x.id == subj for x in ast.walk(n.value))
                 if reads and from_subject:
-                    f = Finding("A7", fi.rel, n.lineno, fi.qual, src_of(n), f"`{cont}` memoises a value computed from `{subj}` under its simple name `{ktxt}`: two definitions of that name (nested in different messages, or in an imported file) get each other's value", witness="message A { enum Kind : uint8 {} }  message B { enum Kind : uint16 {} }: the second Kind is rendered with the first one's type", tag=f"{fi.qual}:name-keyed-memo")
+                    f = Finding("A7", fi.rel, n.lineno, fi.qual, src_of(n), f"`{cont}` memoises a value computed from `{subj}` under `{src_of(key)}`, which carries no more than its simple name: two definitions of that name (nested in different messages, or in an imported file) get each other's value", witness="message A { enum Kind : uint8 {} }  message B { enum Kind : uint16 {} }: the second Kind is rendered with the first one's type", tag=f"{fi.qual}:name-keyed-memo")
                     f.part = "key"
                     res.bad(f)
     res.inst(part="key", memoised_functions=n_memo, name_keyed_stores=n_named)
@@ -1418,6 +1427,12 @@ def c5(repo: Repo) -> RuleResult:
             f = Finding("C5", fo.rel, fo.node.lineno, fo.qual, shp, "the output file name is not <schema file base name> + '_bp' + extension" + (" (the proto's name is used although the file path is known)" if shp == from_name else ""), witness="foo.bitproto with `proto bar` -> foo_bp.h", tag="out_filename")
             f.part = "common"
             res.bad(f)
+        elif re.search(r"basename\(proto\.filepath\)\.(partition|split)\('\.'(, *\d+)?\)\[0\]", shp) or re.search(r"basename\(proto\.filepath\)\[: *[^\]]*\.(find|index)\('\.'\)\]", shp):
+            f = Finding("C5", fo.rel, fo.node.lineno, fo.qual, shp, "the schema file's base name is cut at its FIRST dot: only the extension (the part after the last dot) is to be removed", witness="telemetry.v1.bitproto and telemetry.v2.bitproto both generate telemetry_bp.*: one silently overwrites the other", tag="out-filename:first-dot")
+            f.part = "common"
+            res.bad(f)
+        elif re.fullmatch(r"\{os\.path\.basename\(proto\.filepath\)\.(rpartition\('\.'\)\[0\]|rsplit\('\.', *1\)\[0\])\}_bp\{%s\}" % re.escape(ext), shp):
+            continue  # the same as splitext for names with an extension (schema files have one)
         else:
             res.unsure(f"C5: {fo.qual}: returned shape {shp} not recognised")
     for lang, relsfx, cn, ext_ in (("c", "impls/c/renderer_c.py", "RendererC", ".c"), ("c", "impls/c/renderer_h.py", "RendererCHeader", ".h"), ("go", "impls/go/renderer.py", "RendererGo", ".go"), ("py", "impls/py/renderer.py", "RendererPy", ".py")):
